@@ -153,8 +153,12 @@ type vsfRows struct {
 	closed bool
 }
 
+// eventRows: is this the result set of an event query (four columns)? Row fetches and closes are
+// fallible operations of those only, as in the model; single-value queries (QueryRow) fail as a whole.
+func (r *vsfRows) eventRows() bool { return len(r.Rows.Columns()) == 4 }
+
 func (r *vsfRows) Next(dest []driver.Value) error {
-	if vsfFault(2) {
+	if r.eventRows() && vsfFault(2) {
 		return vmSQLErr
 	}
 	err := r.Rows.Next(dest)
@@ -173,7 +177,7 @@ func (r *vsfRows) Close() error {
 	already := r.closed
 	r.closed = true
 	err := r.Rows.Close()
-	if !already && vsfFault(4) {
+	if !already && r.eventRows() && vsfFault(4) {
 		return vmSQLErr
 	}
 	return err
